@@ -538,7 +538,12 @@ where
                     | (mode == Mode::ReadWriteCreateOrAppend) =>
             {
                 // We are opening a non-existant file, but that's OK because they
-                // asked us to create it
+                // asked us to create it - unless the name is one of the dot
+                // names: those only ever refer to directories that exist
+                // already (a root directory has neither)
+                if sfn == ShortFileName::this_dir() || sfn == ShortFileName::parent_dir() {
+                    return Err(Error::FilenameError(crate::FilenameError::MisplacedPeriod));
+                }
                 None
             }
             Err(Error::NotFound) => {
@@ -1110,7 +1115,12 @@ where
                 return Err(Error::FileAlreadyExists);
             }
             Err(Error::NotFound) => {
-                // perfect, let's make it
+                // perfect, let's make it - unless the name is one of the dot
+                // names: those only ever refer to directories that exist
+                // already (a root directory has neither)
+                if sfn == ShortFileName::this_dir() || sfn == ShortFileName::parent_dir() {
+                    return Err(Error::FilenameError(crate::FilenameError::MisplacedPeriod));
+                }
             }
             Err(e) => {
                 // Some other error - tell them about it
